@@ -211,13 +211,15 @@ def oracle_sequential(ops, items, results, drained, eq):
     return None
 
 
-def run_sequential(ctx, res: Result, max_len: int):
+def run_sequential(ctx, res: Result, max_len: int, only_flavour=None):
     import queue as _q
     import watchdog.events as ev
     import watchdog.observers.api as api
     from watchdog.utils.bricks import SkipRepeatsQueue
 
     flavours = [("plain", SkipRepeatsQueue), ("event", api.EventQueue), ("event-class", api.EventQueue)]
+    if only_flavour:
+        flavours = [f for f in flavours if f[0] == only_flavour]
     alphabet = [("put", 0), ("put", 1), ("get",)]
     seqs = []
     for c in ctx.corpus():
@@ -662,11 +664,49 @@ def run(ctx) -> Result:
     run_event_eq(ctx, res)
     run_sequential(ctx, res, 7 if not ctx.thorough else 8)
     run_concurrent(ctx, res)
+    minimise(res)
     return res
 
 
+def case_size(case):
+    if isinstance(case, dict) and case.get("part") == "concurrent":
+        return (1, sum(len(p) for p in case["producers"]), len(case["choices"]))
+    if isinstance(case, dict) and case.get("part") == "sequential":
+        return (0, len(case["ops"]), 0)
+    return (2, 0, 0)
+
+
+def minimise(res: Result):
+    """Report the smallest failing case first; shrink the schedule of the smallest concurrent failure."""
+    res.failures.sort(key=lambda f: case_size(f.case))
+    res.mismatches.sort(key=lambda m: case_size(m.case))
+    conc = [f for f in res.failures if isinstance(f.case, dict) and f.case.get("part") == "concurrent"]
+    if not conc:
+        return
+    from harness import detsched as ds
+    f = conc[0]
+    prog = {k: f.case[k] for k in ("producers", "mode", "flavour")}
+    law = f.signature["law"]
+
+    def still_fails(choices):
+        s, items, keep = run_program(prog, ds.ReplayChooser(choices))
+        bad = oracle_concurrent(s, items)
+        return bool(bad) and bad[0] == law
+
+    try:
+        small = core.shrink_list(f.case["choices"], still_fails, max_rounds=60)
+        s, items, keep = run_program(prog, ds.ReplayChooser(small))
+        bad = oracle_concurrent(s, items)
+        if bad and bad[0] == law:
+            f.case = {"part": "concurrent", **prog, "choices": [c for _, c in s.choices]}
+            f.observed = bad[1]
+            res.failures.sort(key=lambda f: case_size(f.case))
+    except Exception as e:  # noqa: BLE001
+        res.notes.append(f"schedule shrinking failed: {e!r}")
+
+
 def replay(ctx, obj) -> int:
-    case = obj.get("case", obj)
+    case = obj.get("case") or obj.get("first_disagreement", {}).get("case") or obj
     print("replay case:", case)
     res = Result()
     if isinstance(case, dict) and case.get("part") == "concurrent":
@@ -679,13 +719,9 @@ def replay(ctx, obj) -> int:
         for e in s.events:
             print("  ", e[0], e[1], *(items.get(id(x), x) for x in e[2:]))
     elif isinstance(case, dict) and case.get("part") == "sequential":
-        class C:
-            def corpus(self_inner):
-                return [case]
-        # re-run just this sequence
         import types
-        c2 = types.SimpleNamespace(corpus=lambda: [case], thorough=False)
-        run_sequential(c2, res, -1)
+        c2 = types.SimpleNamespace(corpus=lambda: [case], thorough=False)     # re-run just this sequence
+        run_sequential(c2, res, -1, only_flavour=case.get("flavour"))
     else:
         run_event_eq(ctx, res)
         res.failures = [f for f in res.failures if f.case == case] or res.failures
